@@ -667,6 +667,50 @@ pub fn family(name: &str, k: usize) -> Vec<Vec<u8>> {
             d.extend(vec![1u8; 4 * nf * k]);
             vec![t, d]
         }
+        "chained-v9-template-packets" => {
+            // k chained V9 packets, each (re)defining one small template
+            let mut d = vec![];
+            for i in 0..k {
+                d.extend(v9hdr(1));
+                p16(&mut d, 0);
+                p16(&mut d, 12);
+                p16(&mut d, 256 + (i % 8) as u16);
+                p16(&mut d, 1);
+                p16(&mut d, 1);
+                p16(&mut d, 4);
+            }
+            vec![d]
+        }
+        "chained-ipfix-template-messages" => {
+            let mut d = vec![];
+            for i in 0..k {
+                d.extend(ixhdr(16 + 12));
+                p16(&mut d, 2);
+                p16(&mut d, 12);
+                p16(&mut d, 256 + (i % 8) as u16);
+                p16(&mut d, 1);
+                p16(&mut d, 1);
+                p16(&mut d, 4);
+            }
+            vec![d]
+        }
+        "chained-v9-options-template-packets" => {
+            let mut d = vec![];
+            for i in 0..k {
+                d.extend(v9hdr(1));
+                p16(&mut d, 1);
+                p16(&mut d, 20);
+                p16(&mut d, 256 + (i % 8) as u16);
+                p16(&mut d, 4);
+                p16(&mut d, 4);
+                p16(&mut d, 1);
+                p16(&mut d, 4);
+                p16(&mut d, 1);
+                p16(&mut d, 4);
+                p16(&mut d, 0);
+            }
+            vec![d]
+        }
         "mixed-version-chain" => {
             // k groups of (V5 header, V7 header, V9 header, IPFIX header)
             let mut d = vec![];
@@ -719,7 +763,113 @@ pub const FAMILIES: &[(&str, usize)] = &[
     ("ipfix-wide-records", 128),
     ("v9-wide-records", 128),
     ("mixed-version-chain", 512),
+    ("chained-v9-template-packets", 1024),
+    ("chained-ipfix-template-messages", 1024),
+    ("chained-v9-options-template-packets", 1024),
 ];
+
+/// Fill all four caches of a parser with `p` unrelated templates of 64 fields each (ids from 20000
+/// upwards; the doubling families use ids 256..4352), through parse_bytes as an exporter would.
+pub fn preload(parser: &mut NetflowParser, p: usize) {
+    let nf = 64usize;
+    let ids: Vec<u16> = (0..p).map(|i| 20000 + i as u16).collect();
+    for chunk in ids.chunks(200) {
+        // V9 templates
+        let mut d = vec![];
+        p16(&mut d, 9);
+        p16(&mut d, 1);
+        d.extend(vec![0u8; 16]);
+        p16(&mut d, 0);
+        p16(&mut d, (4 + chunk.len() * (4 + 4 * nf)) as u16);
+        for id in chunk {
+            p16(&mut d, *id);
+            p16(&mut d, nf as u16);
+            for i in 0..nf {
+                p16(&mut d, 1 + (i % 2) as u16);
+                p16(&mut d, 4);
+            }
+        }
+        let _ = parser.parse_bytes(&d);
+        // V9 options templates (ids offset by 20000)
+        let mut d = vec![];
+        p16(&mut d, 9);
+        p16(&mut d, 1);
+        d.extend(vec![0u8; 16]);
+        p16(&mut d, 1);
+        let rec = 6 + 4 + 4 * nf;
+        let total = 4 + chunk.len() * rec;
+        p16(&mut d, (total + (4 - total % 4) % 4) as u16);
+        for id in chunk {
+            p16(&mut d, id + 20000);
+            p16(&mut d, 4);
+            p16(&mut d, (4 * nf) as u16);
+            p16(&mut d, 1);
+            p16(&mut d, 4);
+            for i in 0..nf {
+                p16(&mut d, 1 + (i % 2) as u16);
+                p16(&mut d, 4);
+            }
+        }
+        d.extend(vec![0u8; (4 - total % 4) % 4]);
+        let _ = parser.parse_bytes(&d);
+        // IPFIX templates and options templates: one record per set
+        let mut body = vec![];
+        for id in chunk {
+            p16(&mut body, 2);
+            p16(&mut body, (8 + 4 * nf) as u16);
+            p16(&mut body, *id);
+            p16(&mut body, nf as u16);
+            for i in 0..nf {
+                p16(&mut body, 1 + (i % 2) as u16);
+                p16(&mut body, 4);
+            }
+        }
+        for half in body.chunks(100 * (8 + 4 * nf)) {
+            let mut d = vec![];
+            p16(&mut d, 10);
+            p16(&mut d, (16 + half.len()) as u16);
+            d.extend(vec![0u8; 12]);
+            d.extend_from_slice(half);
+            let _ = parser.parse_bytes(&d);
+        }
+        let mut body = vec![];
+        for id in chunk {
+            p16(&mut body, 3);
+            p16(&mut body, (12 + 4 * nf) as u16);
+            p16(&mut body, id + 20000);
+            p16(&mut body, nf as u16);
+            p16(&mut body, 1);
+            for i in 0..nf {
+                p16(&mut body, 1 + (i % 2) as u16);
+                p16(&mut body, 4);
+            }
+            p16(&mut body, 0);
+        }
+        for half in body.chunks(100 * (12 + 4 * nf)) {
+            let mut d = vec![];
+            p16(&mut d, 10);
+            p16(&mut d, (16 + half.len()) as u16);
+            d.extend(vec![0u8; 12]);
+            d.extend_from_slice(half);
+            let _ = parser.parse_bytes(&d);
+        }
+    }
+}
+
+pub const PRELOAD: usize = 2048;
+
+/// returns the cost of the last call of the family member of size k on a parser whose caches
+/// already hold PRELOAD unrelated templates per map
+fn run_family_preloaded(name: &str, k: usize) -> (CallCost, Sut) {
+    let bufs = family(name, k);
+    let mut sut = Sut::new(1);
+    preload(&mut sut.parsers[0], PRELOAD);
+    let mut last = None;
+    for b in &bufs {
+        last = Some(measure(&mut sut, 0, b));
+    }
+    (last.unwrap(), sut)
+}
 
 /// returns (requested, peak, tails) of the last call of the family member of size k
 fn run_family(name: &str, k: usize) -> (CallCost, Sut) {
@@ -780,6 +930,38 @@ pub fn run(w: &mut W) {
             j += 1;
             k *= 2;
         }
+    }
+    // ---- 4b. cache-size independence: the same member on a parser whose caches hold thousands of
+    //      unrelated templates must not request more than on a fresh parser (beyond the growth of
+    //      the maps it inserts into): cost depends on the buffer and the result, not on the state
+    for (name, maxk) in FAMILIES {
+        if w.oneoff(j) {
+            let _ = w.begin_case(crate::worker::ONEOFF + j, name);
+            let k = (*maxk / 4).max(16);
+            let (c1, _) = run_family(name, k);
+            let (c2, sut2) = run_family_preloaded(name, k);
+            w.rep.count("preload_pairs", 1);
+            w.rep.count("calls_measured", 2);
+            let a1 = c1.m.requested as f64;
+            let a2 = c2.m.requested as f64;
+            w.rep.max(&format!("preload.requested_extra.{}", name), (a2 - a1).max(0.0));
+            w.rep.max("preload.max_requested_extra", (a2 - a1).max(0.0));
+            w.rep.shape(&format!("preload {} k={}", name, k));
+            let entries = { let p = &sut2.parsers[0]; p.v9_parser.templates.len() + p.v9_parser.options_templates.len() + p.ipfix_parser.templates.len() + p.ipfix_parser.options_templates.len() };
+            w.rep.max("preload.cache_entries", entries as f64);
+            w.rep.max("preload.min_requested_delta_negated", (a1 - a2).max(0.0));
+            // A legitimate difference is the growth of the maps the call inserts into (a rehash of a
+            // table that already holds the preloaded entries: at most ~2 x entries x 64 bytes per
+            // map); anything that scales with packets x cache size is far beyond it.
+            let allowance = 4.0 * 2.0 * (PRELOAD as f64) * 64.0 + 65536.0;
+            if entries < 4 * PRELOAD {
+                w.rep.inconclusive += 1; // the preload did not take: nothing can be concluded
+            } else if a2 > a1 + allowance {
+                let d = div(&format!("cost/cache-size/{}", name), "requested-depends-on-cache", format!("{} bytes requested with {} unrelated templates cached, {} on a fresh parser (k={}): the difference exceeds the growth allowance {}", a2, entries, a1, k, allowance));
+                w.rep.violation(format!("C15|cost/cache-size/{}|requested-depends-on-cache", name), &d, json!({"family": name, "k": k, "note": "preload = cost::preload(parser, 2048) before the family's buffers", "ops_without_preload": sut2.replay_json()["ops"].as_array().map(|a| a.len()).unwrap_or(0)}));
+            }
+        }
+        j += 1;
     }
     // ---- headers announcing huge counts over short bodies (single-request bound)
     let announce: Vec<(&str, Vec<u8>)> = {
@@ -1018,10 +1200,16 @@ pub fn ircount(args: &[String]) {
             std::process::exit(2);
         }
     };
+    let with_preload = args.iter().any(|a| a == "--preload");
+    let mut base = NetflowParser::default();
+    if with_preload {
+        // smaller than the allocation-side preload: everything here runs under callgrind
+        preload(&mut base, PRELOAD / 4);
+    }
     let mut k = 16usize;
     while k <= maxk {
         let bufs = family(name, k);
-        let mut p = NetflowParser::default();
+        let mut p = crate::observe::clone_parser(&base);
         for b in &bufs[..bufs.len() - 1] {
             let _ = p.parse_bytes(b);
         }
